@@ -30,6 +30,9 @@ Examples:
 		limit, _ := cmd.Flags().GetInt("limit")
 		verbose, _ := cmd.Flags().GetBool("verbose")
 		dbPath, _ := cmd.Flags().GetString("database")
+		platforms, _ := cmd.Flags().GetStringSlice("platform")
+		allPlatforms, _ := cmd.Flags().GetBool("all-platforms")
+		noCrossPlatform, _ := cmd.Flags().GetBool("no-cross-platform")
 
 		// Load configuration
 		cfg := config.DefaultConfig()
@@ -70,6 +73,10 @@ Examples:
 			Limit:         cfg.MaxResults,
 			PipelineOnly:  true, // New option to focus on pipelines
 			PipelineBoost: 2.0,  // Boost pipeline commands
+
+			AllPlatforms:    allPlatforms,
+			Platforms:       platforms,
+			NoCrossPlatform: noCrossPlatform,
 		}
 		if projectContext != nil {
 			searchOptions.ContextBoosts = projectContext.GetContextBoosts()
